@@ -21,3 +21,9 @@ def uri(run, P):
     from rules import r_lenread, r_uriclass
     r_lenread.run(run, P)
     r_uriclass.run(run, P)
+def replay(run, P):
+    from rules import r_replay, r_shift
+    r_shift.run(run, P)
+    r_replay.run_own(run, P)
+    r_replay.run_rb(run, P)
+    r_replay.run_must(run, P)
